@@ -415,8 +415,9 @@ def r3_exemptions(run, w):
   # the scan loop's dirty rows have the exempt rows removed whenever there are any
   head = sc.head(cfg)
   dv = sc.dirty_var
+  ex_norm = ex.norm(ast.Name(id=exv, ctx=ast.Load()))
   def is_exempt(e):
-    return isinstance(e, ast.Name) and e.id in names
+    return (isinstance(e, ast.Name) and e.id in names) or text(e) == ex_norm
   subs = set()
   for n in cfg.nodes:
     if not (n.kind == "stmt" and isinstance(n.stmt, (ast.Assign, ast.AugAssign))):
@@ -425,7 +426,7 @@ def r3_exemptions(run, w):
     if isinstance(s_, ast.Assign):
       if not (len(s_.targets) == 1 and text(s_.targets[0]) == dv):
         continue
-      v = s_.value
+      v = ex.expand(s_.value)
       # <dirty> = <dirty> - <exempt>   |   <dirty>.difference(<exempt>)
       if isinstance(v, ast.BinOp) and isinstance(v.op, ast.Sub) and text(v.left) == dv and \
           is_exempt(v.right):
@@ -443,7 +444,7 @@ def r3_exemptions(run, w):
             text(c.elt) == c.generators[0].target.id and len(c.generators[0].ifs) == 1:
           k, pol = atom_of(c.generators[0].ifs[0])
           if pol is False and any(k == "%s in %s" % (c.generators[0].target.id, nm)
-                                  for nm in names):
+                                  for nm in set(names) | {ex_norm}):
             subs.add(n.id)
   fr = Facts(cfg, set(names), ex=None)
   starts = [(m, {nm: True for nm in names}) for m in cfg.normal_succ(rd.id)]
